@@ -36,4 +36,13 @@ var props = []PropSpec{
 		Stub:        []string{"hashmap preallocation hint (1_000_000) lowered to 1024 in every simulated run (no semantic effect)"},
 		Assumptions: append([]string{"a violation found with shrunken thresholds is reported only if it reproduces with every threshold at its real value (real-constants rule)"}, commonAssumptions...),
 	},
+	{
+		ID: "C15", Pkg: "./accum", Scenario: "C15", Level: "exploration",
+		Quick:    Tier{Runs: 4000, WallS: 60},
+		Thorough: Tier{Runs: 150000, WallS: 600},
+		Rule: "one run = one generated CAR (0..6 blocks with 0..N children of every kind, more children than the preallocation knob, trailing non-block objects, section lengths 1..3 varint bytes, 1..2 roots) traversed by the real carreader over a stream with legal short reads and the real ObjectAccumulator.Run (reader goroutine, queue, flusher goroutine, pool, WaitGroup) with an ignore-set, SetSkip, and a consumer callback that is instantaneous / yields / sleeps, under one seeded schedule; 20% of runs inject a read error at a tape-chosen byte; distinct = distinct (layout digest, schedule signature, fault multiset); non-trivial = a context switch or fired fault",
+		Real: []string{"accum/block.go", "carreader/reader.go"},
+		Stub: []string{"objects are synthetic (kind byte + random payload), not ledger nodes; the file is an in-memory stream reader"},
+		Assumptions: commonAssumptions,
+	},
 }
